@@ -96,6 +96,37 @@ class TableFilter:
         return bool((self.k >> ((7 * self.ad.lname(link) + code) % 64)) & 1)
 
 
+# argument tuples for the singleton ops: id -> (args, kwargs)
+SARGS = {
+    0: ((), {}), 1: ((1,), {}), 2: ((1.0,), {}), 3: ((True,), {}), 4: ((-1,), {}), 5: ((-2,), {}),
+    6: ((), {"x": 1, "y": 2}), 7: ((), dict([("y", 2), ("x", 1)])), 8: ((-1,), {"x": 1}),
+}
+
+
+def make_singleton_classes(log):
+    """fresh singleton classes for one history; `log` receives (instance, class index, args index)"""
+    from edgegraph.structure import singleton
+
+    def init(self, *args, **kwargs):
+        log.append((self, args, kwargs))
+
+    ts = []
+    A = singleton.TrueSingleton("TA", (), {"__init__": init})
+    B = singleton.TrueSingleton("TB", (A,), {})
+    C = singleton.TrueSingleton("TC", (), {"__init__": init})
+    ts = [A, B, C]
+    M0 = singleton.semi_singleton_metaclass()
+    M1 = singleton.semi_singleton_metaclass()
+    M2 = singleton.semi_singleton_metaclass(hashfunc=lambda args, kwargs: len(args) + len(kwargs))
+    S0 = M0("SA", (), {"__init__": init})
+    S1 = M0("SB", (S0,), {})
+    S2 = M0("SC", (), {"__init__": init})
+    S3 = M1("SD", (), {"__init__": init})
+    S4 = M2("SE", (), {"__init__": init})
+    S5 = M2("SF", (S4,), {})
+    return ts, [S0, S1, S2, S3, S4, S5]
+
+
 class VertexFilter:
     """ff_result family: filter k accepts x iff bit (code(x) % 64) of k (code None = 0, Vi = i+1)"""
 
@@ -129,6 +160,11 @@ class Real:
         self.filters2 = {}
         self.filters1 = {}
         self.vfilters = {}
+        from edgegraph.structure import singleton
+        singleton.clear_true_singleton()
+        self.sg_log = []
+        self.TS, self.SS = make_singleton_classes(self.sg_log)
+        self.T, self.S = [], []           # instances by creation order
         return "ok"
 
     def vname(self, v):
@@ -169,6 +205,28 @@ class Real:
         if k not in self.filters1:
             self.filters1[k] = TableFilter(self, k, 1)
         return self.filters1[k]
+
+    def inst_name(self, table, obj, prefix):
+        for i, o in enumerate(table):
+            if o is obj:
+                return "%s%d" % (prefix, i)
+        table.append(obj)
+        return "%s%d" % (prefix, len(table) - 1)
+
+    def sargs_index(self, args, kwargs):
+        for k, (a, kw) in SARGS.items():
+            if a == args and kw == kwargs and [type(x) for x in a] == [type(x) for x in args] \
+                    and list(kw) == list(kwargs):
+                return k
+        return 99
+
+    def inits_of(self, table, classes):
+        out = []
+        for obj, args, kwargs in self.sg_log:
+            if type(obj) in classes:
+                i = [j for j, o in enumerate(table) if o is obj]
+                out.append("%s:%d:%d" % (i[0] if i else "?", classes.index(type(obj)), self.sargs_index(args, kwargs)))
+        return out
 
     def vfilt(self, k):
         if k is None:
@@ -420,4 +478,62 @@ class Real:
                   "dfsi": depthfirst.dfs_iterative}[op]
             r = fn(uni, start, attr, val)
             return "ok " + self.sv(r)
+        if op in ("tsnew", "ssnew"):
+            classes = self.TS if op == "tsnew" else self.SS
+            args, kwargs = SARGS[int(toks[2][1:])]
+            obj = classes[int(toks[1][1:])](*args, **kwargs)
+            if op == "tsnew":
+                return "ok " + self.inst_name(self.T, obj, "T")
+            return "ok " + self.inst_name(self.S, obj, "S")
+        if op == "tsclear":
+            from edgegraph.structure import singleton
+            singleton.clear_true_singleton(None if toks[1] == "*" else self.TS[int(toks[1][1:])])
+            return "ok"
+        if op == "tsobs":
+            from edgegraph.structure import singleton
+            d = singleton.TrueSingleton._TrueSingleton__singleton_instances
+            cur = ["%d:%s" % (self.TS.index(c), self.inst_name(self.T, o, "T")[1:]) for c, o in d.items() if c in self.TS]
+            return "ts inst=[%s] inits=[%s]" % (",".join(cur), ",".join(self.inits_of(self.T, self.TS)))
+        if op in ("ssadd", "ssdrop", "sscheck", "ssall", "ssclear"):
+            from edgegraph.structure import singleton
+            if op == "ssadd":
+                args, kwargs = SARGS[int(toks[2][1:])]
+                singleton.add_mapping(self.S[int(toks[1][1:])], *args, **kwargs)
+                return "ok"
+            cls = self.SS[int(toks[1][1:])]
+            if op == "ssall":
+                r = list(singleton.get_all_semi_singleton_instances(cls))
+                return "ok [" + ",".join(self.inst_name(self.S, o, "S") for o in r) + "]"
+            if op == "ssclear":
+                singleton.clear_semi_singleton(cls)
+                return "ok"
+            args, kwargs = SARGS[int(toks[2][1:])]
+            if op == "ssdrop":
+                singleton.drop_semi_singleton_mapping(cls, *args, **kwargs)
+                return "ok"
+            r = singleton.check_semi_singleton_entry_exists(cls, *args, **kwargs)
+            return "ok " + ("-" if r is None else self.inst_name(self.S, r, "S"))
+        if op == "ssobs":
+            maps = []
+            for m, c in enumerate([self.SS[0], self.SS[3], self.SS[4]]):
+                d = type(c)._SemiSingleton__semisingleton_instance_map
+                ents = []
+                for key, o in d.items():
+                    owner, k = key
+                    ents.append("%d/%s:%s" % (self.SS.index(owner), self.key_class(m, k), self.inst_name(self.S, o, "S")[1:]))
+                maps.append("m%d=[%s]" % (m, ",".join(ents)))
+            cls = ",".join(str(self.SS.index(type(o))) for o in self.S)
+            return "ss %s cls=[%s] inits=[%s]" % (" ".join(maps), cls, ",".join(self.inits_of(self.S, self.SS)))
         return "bad-op " + " ".join(toks)
+
+    @staticmethod
+    def key_class(m, k):
+        """name the key stored in an instance map by the class of argument tuples it stands for"""
+        import json
+        if m == 2:
+            return str(k)
+        for i, cls in enumerate([0, 1, 1, 1, 2, 3, 4, 4, 5]):
+            a, kw = SARGS[i]
+            if k == (a, json.dumps(kw, sort_keys=True)):
+                return str(cls)
+        return "?"
